@@ -1,3 +1,4 @@
+import Gtree.Lemmas.SourceRefines
 import Gtree.Model.Spreader
 import Gtree.Lemmas.ParseDoc
 import Gtree.Generated.Facts
@@ -208,4 +209,25 @@ theorem C10_parse_step_evolves (s : Spelling) (p : PState) (i h : Nat) (n : Byte
     Evolves s p (parse p (rowOf s i h n)).1 :=
   parse_row_evolves s p i h n rest hc hunit hb hh hname hw hfio hsharp
 
+end Gtree
+
+namespace Gtree
+/-- Tie to the source, re-checked on every run: the parser shared by the generator workers in the C10 theorems is `Parser.Parse` of markdown/parser.go as translated on this run. -/
+theorem C10_parser_is_the_source (st : PState) (row : Bytes) :
+    Src.Parser.Parse (toSrc st) row = (toSrc (parse st row).1, resSrc (parse st row).2) :=
+  Parse_src st row
+
+/-- the parser every generator starts with (`md.NewParser()` returns `&Parser{}`) is the model's initial state -/
+example : toSrc {} = { isSharpRoot := false, spaces := 0, sep := [] } := rfl
+end Gtree
+
+namespace Gtree
+/-- Tie to the source: the predicate by which the model's splitter (`splitStep`, `splitBlocks`) begins a new block
+    is `isRootBlockBeginning` of input_spliter.go as translated on this run, for every row and either heading mode. -/
+theorem C10_block_beginning_is_the_source (l : Bytes) (sharp : Bool) :
+    Src.isRootBlockBeginning l sharp = rootBeginning l sharp :=
+  isRootBlockBeginning_src l sharp
+
+theorem C10_heading_row_is_the_source (l : Bytes) : Src.isSharpRootRow l = isSharpRow l :=
+  isSharpRootRow_src l
 end Gtree
